@@ -42,7 +42,9 @@ def run(rep: Report, ctx: Any) -> str:
     rep.rule("R09.1", "for all input strings: each return path of the name constructors and each enum member name is a "
                       "valid, non-keyword identifier (first in ID_Start, rest in ID_Continue, non-empty).  The three conditions are "
                       "separate obligations per path (<path> character classes, <path>::non-empty, <path>::not-reserved): a known "
-                      "defect of one kind never stands for a defect of another kind on the same path")
+                      "defect of one kind never stands for a defect of another kind on the same path.  The enum member names are decided for all "
+                      "values of every parameter of EnumProperty.values_from_list that some call supplies (a list of strings, a string, "
+                      "an int, as annotated: arbitrary ones), not only for the member values")
     rep.rule("R09.2", "fields annotated PythonIdentifier / ClassName only ever receive results of those constructors; every template "
                       "hole that prints such a field carries constructor results only; every identifier-required position of the "
                       "generated code (assignment / annotation target, keyword, parameter, attribute, def / class / import / for name) "
@@ -268,7 +270,9 @@ def ascii_pattern(pat: str) -> "str | None":
 
 class FlagAwareInterp(CharInterp):
     """The character interpreter with some constructs brought into a form it reads: regular-expression calls with flags / limits
-    (below), `xs or []` as a list-valued expression, the truth of a name bound to None, and a type test of a value an earlier test has already decided.  CharInterp reads `re.sub / re.split / re.findall` as (pattern, [replacement,] string) under Unicode matching.  A call that says
+    (below), `xs or []` as a list-valued expression, the truth of a name bound to None, and a type test of a value an earlier test
+    on the path has already decided.
+    CharInterp reads `re.sub / re.split / re.findall` as (pattern, [replacement,] string) under Unicode matching.  A call that says
     more is rewritten into the call of that form that means the same - flags=re.ASCII by writing the ASCII classes into the pattern,
     flags=0 / re.UNICODE, count=0, maxsplit=0 by leaving them out - and anything else is refused (exit 2): an argument that changes
     what the call computes is never ignored."""
@@ -1044,7 +1048,9 @@ def check_no_silent_loss(rep: Report, ctx: Any, rid: str, sources: set[str]) -> 
                   "and without leaving the function, and (b) depends on the elements collected so far (reads one of the collections, "
                   "through locals, methods, helpers), also reads every attribute of the item that determines its place and its name: "
                   "the attributes read by what selects the collection at the delivery, and those handed on as `name=` of what is "
-                  "delivered.  Leaving an item out on a part of its identity merges two items without a diagnostic")
+                  "delivered (there, or in a helper of the module the item is handed to, in what its result is computed from).  The "
+                  "collections may be reached through a table built in place or returned by a method / helper.  Leaving an item out on "
+                  "a part of its identity merges two items without a diagnostic")
     ep = ix.cls("Endpoint")
     cfgs: dict[str, Any] = {}
     sites = []   # (function, loop, delivering statements, item names)
